@@ -33,7 +33,8 @@ Record Inv (s : sf) : Prop := {
   inv_nodup : NoDup (active_rids (tiles s));
   inv_seq : Forall (seq_below (nseq s)) (tiles s);
   inv_nonempty : tiles s <> [];
-  inv_size : tiles_len (tiles s) < 4294967296 }.
+  inv_size : tiles_len (tiles s) < 4294967296;
+  inv_nseq : 0 < nseq s /\ nseq s < 4294967296 }.
 
 (* ---------- generic list facts ---------- *)
 
@@ -442,7 +443,7 @@ Theorem write_refines s rid ss exp steps s' : Inv s -> fits s rid ss exp ->
   /\ (forall r, slookup (abs (tiles s')) r = if bytes_eqb rid r then Some ss else slookup (abs (tiles s)) r)
   /\ nseq s' = nseq s + 1.
 Proof.
-  intros [Hwf Hnd Hseq Hne Hsz] Hfit Hw.
+  intros [Hwf Hnd Hseq Hne Hsz Hns] Hfit Hw.
   pose proof (fits_wf_span _ _ _ _ Hfit) as Hspan.
   destruct Hfit as (F1 & F2 & F3 & F4 & F5 & F6).
   apply write_record_result in Hw. destruct Hw as [Hres Hn].
@@ -471,6 +472,7 @@ Proof.
       * intros E. apply app_eq_nil in E. destruct E as [_ E]. apply app_eq_nil in E. destruct E as [E _].
         rewrite E in P2. discriminate.
       * rewrite I5, P4. lia.
+      * lia.
     + intros r. try rewrite <- Ht. rewrite I4. rewrite Hsplit, !abs_app, Ha0. reflexivity.
   - rewrite Hc in Hres. destruct (N.ltb_spec exp size) as [Hlt|Hge]; [discriminate|].
     inversion Hres as [Ht]. clear Hres Hc.
@@ -488,6 +490,7 @@ Proof.
       * intros E. apply app_eq_nil in E. destruct E as [_ E]. apply app_eq_nil in E. destruct E as [E _].
         rewrite E in P2. discriminate.
       * rewrite I5, P4. cbn [tiles_len fold_right]. lia.
+      * lia.
     + intros r. try rewrite <- Ht. rewrite I4. cbn [abs flat_map]. rewrite app_nil_r. reflexivity.
 Qed.
 
@@ -508,7 +511,7 @@ Theorem write_growth s rid ss exp steps s' : Inv s -> fits s rid ss exp ->
   \/ (tiles_len (tiles s') = tiles_len (tiles s) + exp
       /\ find_run (tiles s) [] [] 0 (span_size (nseq s) rid ss) = None).
 Proof.
-  intros [Hwf Hnd Hseq Hne Hsz] Hfit Hw.
+  intros [Hwf Hnd Hseq Hne Hsz Hns] Hfit Hw.
   pose proof (fits_wf_span _ _ _ _ Hfit) as Hspan.
   destruct Hfit as (F1 & F2 & F3 & F4 & F5 & F6).
   apply write_record_result in Hw. destruct Hw as [Hres _].
@@ -545,7 +548,7 @@ Theorem remove_refines s rid : Inv s ->
   | Panic => False
   end.
 Proof.
-  intros [Hwf Hnd Hseq Hne Hsz]. unfold remove_record.
+  intros [Hwf Hnd Hseq Hne Hsz Hns]. unfold remove_record.
   destruct (lookup (index_of (tiles s)) rid) eqn:El.
   - repeat split; cbn [tiles nseq].
     + assert (Hin : In rid (active_rids (tiles s))).
@@ -560,6 +563,8 @@ Proof.
     + now apply free_rid_seq.
     + now apply free_rid_nonempty.
     + rewrite free_rid_len by exact Hwf. exact Hsz.
+    + apply Hns.
+    + apply Hns.
     + now apply free_rid_len.
     + intros r. rewrite free_rid_abs by exact Hwf. apply slookup_filter.
   - unfold index_of in El. apply lookup_index_none in El.
